@@ -116,5 +116,14 @@ static void emit_corpus(int mode) {
       int flags = pi == 3 ? 4 : 0; body = std::string(1, (char)(i & 0xff)) + std::string(1, (char)(i >> 8)) + std::string(1, (char)flags) + std::string(1, (char)(h.size() & 0xff)) + std::string(1, (char)(h.size() >> 8)) + std::string(1, (char)(strlen(pays[pi]) & 0xff)) + std::string(1, (char)(strlen(pays[pi]) >> 8)) + h + pays[pi] + sig; }
     std::string fn = std::string(d) + "/seed-" + std::to_string(i) + "-" + std::to_string(pi); FILE *f = fopen(fn.c_str(), "wb"); if (f) { fwrite(body.data(), 1, body.size(), f); fclose(f); }
   }
+  // a few long inputs (tens of kilobytes): valid long token, long garbage in each segment
+  for (size_t i = 2; i < CFGS.size(); i += 21) {
+    const Cfg &c = *CFGS[i]; jwt_alg_t a = c.k ? cfg_alg(c) : JWT_ALG_NONE; static KeySpec dummy;
+    std::string h = std::string("{\"alg\":\"") + (a == JWT_ALG_NONE ? "none" : jwt_alg_str(a)) + "\"}", pay = "{\"exp\":1800000000,\"big\":\"" + std::string(30000, 'y') + "\"}";
+    std::vector<std::string> bodies;
+    if (mode == 0) { std::string pre = std::string(1, (char)(i & 0xff)) + std::string(1, (char)(i >> 8)); bodies.push_back(pre + ref_token(c.k ? *c.k : dummy, a, h, pay)); bodies.push_back(pre + std::string(20000, 'A') + "." + std::string(20000, 'B') + "." + std::string(20000, 'C')); bodies.push_back(pre + b64u_enc(h) + "." + std::string(40001, 'Q') + "."); }
+    else { std::string in = b64u_enc(h) + "." + b64u_enc(pay); std::string sig = c.k ? ref_sign(*c.k, a, in) : ""; bodies.push_back(std::string(1, (char)(i & 0xff)) + std::string(1, (char)(i >> 8)) + std::string(1, (char)4) + std::string(1, (char)(h.size() & 0xff)) + std::string(1, (char)(h.size() >> 8)) + std::string(1, (char)(pay.size() & 0xff)) + std::string(1, (char)(pay.size() >> 8)) + h + pay + sig); }
+    int n = 0; for (auto &b : bodies) { std::string fn = std::string(d) + "/long-" + std::to_string(i) + "-" + std::to_string(n++); FILE *f = fopen(fn.c_str(), "wb"); if (f) { fwrite(b.data(), 1, b.size(), f); fclose(f); } }
+  }
   exit(0);
 }
